@@ -540,6 +540,7 @@ def check_design(clif_text, layout, rtl, timeout_ms=20000):
     # every other cell holds a previous (clean) value of its variable: bits above the declared width
     # are zero -- the buffers start zeroed and every store is width-masked or narrower than the cell
     input_names = {i["name"] for i in rtl["inputs"]}
+    olds = []
     for v in layout["vars"]:
         if v.get("port") in input_names:
             continue
@@ -548,6 +549,7 @@ def check_design(clif_text, layout, rtl, timeout_ms=20000):
                 raise Unsupported("flip-flop storage in a comb-only design")
             nb, w = v["native_bytes"], v["width"]
             old = z3.BitVec(f"old_{v['path']}_{k}", w)
+            olds.append(old)
             mem.store("comb", e["off"], z3.ZeroExt(8 * nb - w, old) if 8 * nb > w else old, nb)
     for fn in funcs:
         mem = run_function(fn, mem, {0: "ff", 1: "comb"})
@@ -569,23 +571,55 @@ def check_design(clif_text, layout, rtl, timeout_ms=20000):
         s.add(a)
     # computed addresses must hit a cell of some variable (the JIT clamps dynamic indices)
     diffs += [(f"address-in-range#{k}", z3.Not(o)) for k, o in enumerate(CTX["oob"])]
-    s.add(z3.Or(*[d for _, d in diffs]))
-    r = s.check()
+    # one query per obligation (an OR over all outputs is much harder for z3 than its parts);
+    # a timeout is retried once through simplify + bit-blast + SAT
+    queries = 0
+    r = z3.unsat
+    for _, d in diffs:
+        s.push()
+        s.add(d)
+        queries += 1
+        r = s.check()
+        if r == z3.unknown:
+            t = z3.Then("simplify", "solve-eqs", "bit-blast", "sat").solver()
+            t.set("timeout", timeout_ms)
+            for a in assumptions:
+                t.add(a)
+            t.add(d)
+            queries += 1
+            r2 = t.check()
+            if r2 == z3.unsat:
+                r = z3.unsat
+        if r != z3.unsat:
+            break
+        s.pop()
     if r == z3.unsat:
-        return dict(verdict="equal", obligations=len(diffs), functions=len(funcs), queries=1)
+        return dict(verdict="equal", obligations=len(diffs), functions=len(funcs), queries=queries)
     if r == z3.unknown:
-        return dict(verdict="inconclusive", why="solver timeout", queries=1)
+        return dict(verdict="inconclusive", why="solver timeout", queries=queries)
     m = s.model()
+    # prefer a model whose previous buffer contents are all zero: that one is reproducible on a freshly built
+    # simulator (a store the IR no longer performs leaves the zero-initialised cell behind)
+    fresh = False
+    s.push()
+    for o in olds:
+        s.add(o == 0)
+    if s.check() == z3.sat:
+        m = s.model()
+        fresh = True
+    s.pop()
+    queries += 1
     bad = [n for n, d in diffs if z3.is_true(m.eval(d, model_completion=True))]
     ins = {i["name"]: format(m.eval(R["in"][i["name"]], model_completion=True).as_long(), "x") for i in rtl["inputs"]}
     port = bad[0]
     if port not in vars_by_port:
-        return dict(verdict="differs", port=port, inputs=ins, jit_value="?", rtl_value="?", queries=1)
+        return dict(verdict="differs", port=port, inputs=ins, jit_value="?", rtl_value="?", queries=queries)
     w = next(o["width"] for o in rtl["outputs"] if o["name"] == port)
     got = m.eval(out_value(port, w, mem), model_completion=True)
     want = m.eval(R["out"][port], model_completion=True)
     return dict(verdict="differs", port=port, inputs=ins, jit_value=format(got.as_long(), "x"),
-                rtl_value=format(want.as_long(), "x"), queries=1)
+                rtl_value=format(want.as_long(), "x"), queries=queries,
+                fresh_buffers=fresh)
 
 
 if __name__ == "__main__":
